@@ -129,6 +129,31 @@ def snapshot_rows(zk, hist, table):
     return rows
 
 
+class _Handler:
+    def event_object(self):
+        import threading
+        return threading.Event()
+
+
+class _Loop(azk.AppTraceLoop):
+    """The real trace loop (its _process_db_events / _process_events); only the decoding of one event is replaced by a
+    recorder, so that arbitrary event payloads can be used."""
+
+    def __init__(self, zkclient, name):
+        zkclient.handler = _Handler()
+        super(_Loop, self).__init__(zkclient, name, None)
+        self.seen = []
+
+    def _process_event(self, object_name, timestamp, source, event_type, event_data, ctx):
+        self.seen.append(','.join([object_name, timestamp, source, event_type, event_data]))
+
+
+def retrievable(zk, inst):
+    loop = _Loop(zk, inst)
+    loop._process_db_events(None)
+    return set(loop.seen)
+
+
 def live_state(zk):
     ev = {p: tuple(v) for p, v in zk.nodes.items() if p.startswith('/trace/') and p.count('/') == 3}
     fin = {p: tuple(v) for p, v in zk.nodes.items() if p.startswith('/finished/')}
@@ -142,6 +167,7 @@ def check_after(zk, before, op, now, errs, tag):
     trows = snapshot_rows(zk, '/trace.history', 'trace')
     frows = snapshot_rows(zk, '/finished.history', 'finished')
     tpaths = {r[0]: r for r in trows}
+    cache_loop = {}
     for p, v in ev0.items():
         if p in zk.nodes:
             continue
@@ -156,6 +182,10 @@ def check_after(zk, before, op, now, errs, tag):
         got = _zk.download_batch(zk, '/trace.history/' + r[3], 'trace', inst)
         if name not in got:
             errs.append('%s%s: event %s not retrievable with download_batch' % (op, tag, p))
+        if inst not in cache_loop:
+            cache_loop[inst] = retrievable(zk, inst)
+        if name not in cache_loop[inst]:
+            errs.append('%s%s: archived event %s is not delivered by AppTraceLoop._process_db_events' % (op, tag, p))
         ts = float(name.split(',')[1])
         if kind == 'cleanup_trace':
             exp = op[2]
@@ -238,7 +268,7 @@ def run(case):
 
 def rand_case(rng):
     now = 1000000.0
-    insts = ['proid.app#%010d' % i for i in range(rng.randint(2, 5))]
+    insts = ['proid.app#%010d' % i for i in rng.sample([0, 1, 2, 3, 7, 9, 10, 11, 15, 16, 42, 255, 256, 266, 300, 1000], rng.randint(2, 6))]
     events = []
     for inst in insts:
         shard = '%04X' % (int(inst.split('#')[1]) % 256)
